@@ -55,7 +55,17 @@ def dom_size(d):
 def cases(draw, tier):
     mode = draw(st.sampled_from(['domain', 'factor', 'factor', 'binding', 'binding']))
     if mode == 'domain':
-        return {'mode': 'domain', 'd1': draw(domain_specs()), 'd2': draw(domain_specs()), 'probe': [tj(draw(st.sampled_from(VALS))) for _ in range(4)],
+        d1 = draw(domain_specs())
+        rel = draw(st.sampled_from(['independent', 'independent', 'permuted', 'same', 'prefix']))
+        if rel == 'independent' or 'range' in d1:
+            d2 = draw(domain_specs())
+        elif rel == 'permuted':
+            d2 = {'values': list(draw(st.permutations(d1['values'])))}      # same values, other numbering: a different domain
+        elif rel == 'same':
+            d2 = {'values': list(d1['values'])}
+        else:
+            d2 = {'values': list(d1['values'][:-1])}
+        return {'mode': 'domain', 'd1': d1, 'd2': d2, 'probe': [tj(draw(st.sampled_from(VALS))) for _ in range(4)],
                 'iprobe': [draw(st.integers(-2, 8)) for _ in range(3)]}
     ar = draw(st.sampled_from([0, 1, 2, 2, 3]))
     doms = [draw(domain_specs(3 if ar == 3 else 4)) for _ in range(ar)]
